@@ -2,6 +2,7 @@ package ttlv
 
 import (
 	"encoding/binary"
+	"math"
 	"math/big"
 	"slices"
 	"time"
@@ -142,6 +143,9 @@ func (enc *ttlvWriter) DateTime(tag int, date time.Time) {
 func (enc *ttlvWriter) Interval(tag int, interval time.Duration) {
 	if interval < 0 {
 		panic("interval cannot be negative")
+	}
+	if interval/time.Second > math.MaxUint32 {
+		panic("interval is too large")
 	}
 	enc.encodeAppend(tag, TypeInterval, 4, func(b []byte) []byte {
 		b = binary.BigEndian.AppendUint32(b, uint32(interval.Seconds()))
